@@ -14,7 +14,15 @@
 (*     Snapshot = Data.Clone), Persist (FSMSnapshot.Persist = Marshal,     *)
 (*     later, applies allowed in between) and Restore (Unmarshal, then the *)
 (*     commands after the snapshot index are applied again) are actions;   *)
-(*     SnapshotPointInTime, SnapshotComplete.                              *)
+(*     SnapshotPointInTime, SnapshotComplete, SnapshotKeepsVersions.       *)
+(*     Determinism is structural in TLA+ (Ap is an operator); the code-    *)
+(*     level hazard - a decision taken from the FIRST entry of a Go map -  *)
+(*     is stated explicitly: the commands that consult "some measurement   *)
+(*     of the policy" (validMeasurementShardType's witness, CreateShard-   *)
+(*     Group's template) take that entry as a parameter (ApW), ApAll is    *)
+(*     the set of outcomes over all entries the map may yield first, and   *)
+(*     WitnessIndependent / TemplateIndependent say that set is a          *)
+(*     singleton; ShardTypeUniform is the rule that makes it so.           *)
 (*                                                                         *)
 (* dv is a set of deviation names. Dev = {} is the design. Two lineages    *)
 (* are carried: cat (deviations Dev) and, when Track, catI (deviations     *)
@@ -40,27 +48,31 @@ CONSTANTS DBs, RPs, Msts, Users, Hosts, SqlHosts,
           MaxNodes,   \* bound on data nodes
           SchemaCleanChoices, \* values of schema-clean-enable explored
           MaxTail,    \* bound on commands applied between Snapshot and Restore
+          MaxSnaps,   \* bound on snapshots per behaviour
+          ShardTypes, \* sharding types offered to CreateMeasurement (0 = HASH, 1 = RANGE)
+          PpnChoices, \* values of [meta] ptnum-pernode explored (partitions per data node)
           Ops,        \* command types enabled in this configuration
           Depth, Dev, ImplDev, Track
 
 VARIABLES cat,     \* catalogue of a node that applies every command (deviations Dev)
           catI,    \* same log, deviations Dev \cup ImplDev (only when Track)
           used,    \* history: identifiers ever handed out  <<kind, id>>
+          usedv,   \* history: measurement versions handed out in the policies that exist  <<db, rp, name, version>>
           flags,   \* [reused, noop, panic]: ghost outcome of the steps so far
-          sn,      \* snapshot machinery [ph, c, ci, img, imgi, tail]
-          catB,    \* node restored from the snapshot (deviations Dev)
+          sn,      \* snapshot machinery [ph, rest, k, c, ci, img, imgi, tail]
+          catB,    \* replica that is restored from its snapshots (deviations Dev); meaningful once sn.rest
           catBI,   \* ... deviations Dev \cup ImplDev
           hist
 
-vars == <<cat, catI, used, flags, sn, catB, catBI, hist>>
-view == <<cat, used, flags, sn, catB>>
+vars == <<cat, catI, used, usedv, flags, sn, catB, catBI, hist>>
+view == <<cat, used, usedv, flags, sn, catB>>
 
 Hour == 4
 
 -----------------------------------------------------------------------------
 NoRp == [ex |-> FALSE, mark |-> FALSE, dur |-> 0, sgd |-> 0, igd |-> 0, repn |-> 0,
          mv |-> [m \in Msts |-> -1],  \* MstVersions: current version per measurement name, -1 = none
-         ms |-> {},                   \* Measurements: records [n, v, id, mark, sk, skg]
+         ms |-> {},                   \* Measurements: records [n, v, id, mark, sk, skg, ty]; ty = ShardKeys[0].Type
          sgs |-> <<>>,                \* ShardGroups  [id, s, e, del, eng, d, shards: <<[id, ix, mdel]>>]
          igs |-> <<>>]                \* IndexGroups  [id, s, e, eng, idxs: <<id>>]
 NoDb == [ex |-> FALSE, mark |-> FALSE, def |-> "", repn |-> 0, rps |-> [r \in RPs |-> NoRp]]
@@ -68,6 +80,7 @@ NoDb == [ex |-> FALSE, mark |-> FALSE, def |-> "", repn |-> 0, rps |-> [r \in RP
 InitCat == [nodes |-> <<>>,           \* DataNodes [id, host, conn]
             sql |-> <<>>,             \* SqlNodes  [id, host, conn]
             maxNode |-> 0, maxConn |-> 0, ptNum |-> 0,
+            ppn |-> 1,                \* configuration [meta] ptnum-pernode, fixed per behaviour
             ptv |-> [d \in DBs |-> <<>>],   \* PtView[db]: <<[owner, rg]>>, position = pt id + 1
             rgs |-> [d \in DBs |-> <<>>],   \* ReplicaGroups[db]: <<[id, master, peers, st]>>
             rgmap |-> FALSE,          \* implementation detail: the ReplicaGroups map has been allocated (expandDBRG)
@@ -119,7 +132,8 @@ NormIgd(igd, sgd) == IF igd < sgd THEN sgd
 NewRp(sgd, dur, k) == [NoRp EXCEPT !.ex = TRUE, !.dur = dur, !.sgd = sgd, !.igd = sgd, !.repn = k]
 
 -----------------------------------------------------------------------------
-\* replica groups (replication.go: NodeHardChooseRG / joinRpGroup), one partition per node
+\* replica groups (replication.go: NodeHardChooseRG / joinRpGroup); replication (ReplicaNum > 1) is
+\* modelled for one partition per node only (Protocol)
 FirstUnfull(rgs) == IF \E i \in 1..Len(rgs) : rgs[i].st = "unfull"
                     THEN Min({i \in 1..Len(rgs) : rgs[i].st = "unfull"}) ELSE 0
 \* pt = partition id (0-based); returns [rgs, rg]: the groups after pt joined, and the group id it got
@@ -157,10 +171,10 @@ CreateDataNode(c, h, dv) ==
   ELSE
     LET id  == c.maxNode + 1
         nn  == Append(c.nodes, [id |-> id, host |-> h, conn |-> c.maxConn + 1])
-        pn  == Len(nn)                                  \* PtNumPerNode = 1
-        Exp(d) ==                                        \* expandDBPtView
+        pn  == c.ppn * Len(nn)                          \* initDataNodePtView: PtNumPerNode * write nodes
+        Exp(d) ==                                        \* expandDBPtView: the new partitions belong to the new node
           IF c.ptv[d] = <<>> \/ Len(c.ptv[d]) = pn THEN [ptv |-> c.ptv[d], rgs |-> c.rgs[d]]
-          ELSE LET pv == Append(c.ptv[d], [owner |-> id, rg |-> 0])
+          ELSE LET pv == c.ptv[d] \o [i \in 1..(pn - Len(c.ptv[d])) |-> [owner |-> id, rg |-> 0]]
                    rn == IF c.dbs[d].ex /\ c.dbs[d].repn # 0 THEN c.dbs[d].repn ELSE 1
                IN IF rn > 1
                   THEN LET j == JoinRG(c.rgs[d], Len(pv) - 1, rn)
@@ -271,22 +285,46 @@ SetDefaultRetentionPolicy(c, db, rp) ==
 \* RetentionPolicyInfo.Measurement(name): the current version's entry, if still present
 CurMst(R, m) == {x \in R.ms : x.n = m /\ x.v = R.mv[m]}
 
-\* ApplyCreateMeasurement -> Data.CreateMeasurement (sk = shard-key variant; all HASH)
-CreateMeasurement(c, db, rpx, m, sk, dv) ==
+TyName(b) == IF b = 1 THEN "range" ELSE "hash"
+
+\* "no entry": what a command that consults the first entry of rp.Measurements sees when the map
+\* (or the part of it the command looks at) is empty
+NoPick == [n |-> "", v |-> -1, id |-> 0, mark |-> FALSE, sk |-> 0, skg |-> 0, ty |-> ""]
+
+\* RetentionPolicyInfo.validMeasurementShardType(type, name) ranges over rp.Measurements and takes the
+\* FIRST entry it does not skip as the witness of the policy's sharding type; Witnesses = the entries it
+\* may take. Design: only the LIVE entry of the measurement itself is skipped (CreateMeasurement of an
+\* existing measurement / AlterShardKey answer from that entry); entries that are marked deleted are still
+\* in the map - CreateShardGroup may take them as template - and constrain the type until DropMeasurement
+\* removes them, and so do marked entries of older versions of the SAME name.
+\* As implemented ("shardtype_check_skips_same_name"): every entry of the same origin name is skipped, so
+\* a measurement can be re-created with another sharding type while its previous version is still marked.
+\* Mutation seed ("shardtype_check_skips_marked"): marked entries are skipped.
+Witnesses(R, m, dv) ==
+  {x \in R.ms : /\ ~(x.n = m /\ (~x.mark \/ "shardtype_check_skips_same_name" \in dv))
+                /\ ~(x.mark /\ "shardtype_check_skips_marked" \in dv)}
+
+\* ApplyCreateMeasurement -> Data.CreateMeasurement (sk = shard-key variant, ty = sharding type,
+\* w = the witness validMeasurementShardType happened to take, NoPick if it found none)
+CreateMeasurement(c, db, rpx, m, sk, ty, w, dv) ==
   IF RpErr(c, db, rpx) # "" THEN Fail(c, RpErr(c, db, rpx))
   ELSE LET rp == RpName(c, db, rpx)
            R  == c.dbs[db].rps[rp]
            cur == CurMst(R, m)
-       IN IF cur = {} \/ (\E x \in cur : x.mark)
-          THEN LET v == IF R.mv[m] = -1 THEN 0 ELSE R.mv[m] + 1
+       IN IF w.n # "" /\ w.ty # ty THEN Fail(c, "shard_type_conflict")
+          ELSE IF R.repn > 1 /\ ty = "range" THEN Fail(c, "conflict_with_rep")
+          ELSE IF cur = {} \/ (\E x \in cur : x.mark)
+          THEN LET \* the next version comes from the per-name counter MstVersions, which outlives the
+                   \* entry (DropMeasurement keeps it). Mutation seed: taken from the entries.
+                   v == IF R.mv[m] = -1 \/ ("version_from_entries" \in dv /\ cur = {}) THEN 0 ELSE R.mv[m] + 1
                    rec == [n |-> m, v |-> v, id |-> c.maxMst, mark |-> FALSE, sk |-> sk,
-                           skg |-> IF R.sgs = <<>> THEN c.maxSG + 1 ELSE 0]
+                           skg |-> IF R.sgs = <<>> THEN c.maxSG + 1 ELSE 0, ty |-> ty]
                IN IF v > MaxVer THEN Fail(c, "bound")
                   ELSE Ok([c EXCEPT !.dbs[db].rps[rp].mv[m] = v,
                                     !.dbs[db].rps[rp].ms = @ \cup {rec},
                                     !.maxMst = IF "forget_maxmstid" \in dv THEN @ ELSE @ + 1],
                           {<<"mst", c.maxMst>>})
-          ELSE IF \E x \in cur : x.sk = sk THEN Ok(c, {}) ELSE Fail(c, "mst_exists")
+          ELSE IF \E x \in cur : x.sk = sk /\ x.ty = ty THEN Ok(c, {}) ELSE Fail(c, "mst_exists")
 
 \* ApplyMarkMeasurementDelete
 MarkMeasurementDelete(c, db, rpx, m) ==
@@ -306,8 +344,11 @@ DropMeasurement(c, db, rpx, m, v) ==
 -----------------------------------------------------------------------------
 Live(R, eng) == {i \in 1..Len(R.sgs) : ~R.sgs[i].del /\ R.sgs[i].eng = eng}
 
-\* ApplyCreateShardGroup -> Data.CreateShardGroup (createIndexGroupIfNeeded, newShardGroup, createShards)
-CreateShardGroup(c, db, rpx, t, eng, dv) ==
+\* ApplyCreateShardGroup -> Data.CreateShardGroup (createIndexGroupIfNeeded, newShardGroup, createShards).
+\* tpl = the template measurement: the FIRST entry of rp.Measurements (any entry, marked or not). Its
+\* sharding type decides the number of shards: HASH = one per partition of the cluster; RANGE = as many as
+\* the last group of the policy has (one if there is none).
+CreateShardGroup(c, db, rpx, t, eng, tpl, dv) ==
   IF c.ptNum = 0 THEN Fail(c, "store_not_ready")
   ELSE IF RpErr(c, db, rpx) # "" THEN Fail(c, RpErr(c, db, rpx))
   ELSE LET rp == RpName(c, db, rpx)
@@ -337,15 +378,17 @@ CreateShardGroup(c, db, rpx, t, eng, dv) ==
           s1   == IF clip THEN Max({s0} \cup {R.sgs[i].e : i \in {j \in lv : R.sgs[j].e <= t /\ R.sgs[j].e > s0}}) ELSE s0
           e1   == IF clip THEN Min({e0} \cup {R.sgs[i].s : i \in {j \in lv : R.sgs[j].s > t /\ R.sgs[j].s < e0}}) ELSE e0
           base == IF "shard_wrong_index" \in dv THEN pn ELSE 0
+          ns   == IF tpl.ty = "range"
+                  THEN (IF R.sgs = <<>> THEN 1 ELSE Len(R.sgs[Len(R.sgs)].shards)) ELSE pn
           sg   == [id |-> c.maxSG + 1, s |-> s1, e |-> e1, del |-> FALSE, eng |-> eng, d |-> R.sgd,
-                   shards |-> [i \in 1..pn |-> [id |-> c.maxSh + i, ix |-> ig.idxs[i] + base, mdel |-> FALSE]]]
+                   shards |-> [i \in 1..ns |-> [id |-> c.maxSh + i, ix |-> ig.idxs[i] + base, mdel |-> FALSE]]]
           R2   == [R EXCEPT !.igs = igs2, !.sgs = InsSorted(R.sgs, sg)]
       IN Ok([c EXCEPT !.dbs[db].rps[rp] = R2,
                       !.maxSG  = IF "forget_maxsgid" \in dv THEN @ ELSE @ + 1,
-                      !.maxSh  = IF "forget_maxshardid" \in dv THEN @ ELSE @ + pn,
+                      !.maxSh  = IF "forget_maxshardid" \in dv THEN @ ELSE @ + ns,
                       !.maxIG  = IF reuse THEN @ ELSE @ + 1,
                       !.maxIdx = IF reuse THEN @ ELSE @ + pn],
-            {<<"sg", c.maxSG + 1>>} \cup {<<"sh", c.maxSh + i>> : i \in 1..pn}
+            {<<"sg", c.maxSG + 1>>} \cup {<<"sh", c.maxSh + i>> : i \in 1..ns}
               \cup (IF reuse THEN {} ELSE {<<"ig", c.maxIG + 1>>} \cup {<<"ix", c.maxIdx + i>> : i \in 1..pn}))
 
 \* ApplyDeleteShardGroup (deleteType = mark as deleted)
@@ -408,7 +451,20 @@ SetPrivilege(c, u, db, p) ==
   ELSE Ok([c EXCEPT !.users[i].privs[db] = p], {})
 
 -----------------------------------------------------------------------------
-Ap(c, cmd, dv) ==
+\* ---- commands that consult "the first entry" of rp.Measurements ------------------------------------
+\* the policy a measurement / shard-group command works on (NoRp if the command fails before)
+CmdRp(c, cmd) == IF RpErr(c, cmd.db, cmd.rp) # "" THEN NoRp ELSE c.dbs[cmd.db].rps[RpName(c, cmd.db, cmd.rp)]
+\* the entries the map iteration may yield first
+Picks(c, cmd, dv) ==
+  CASE cmd.op = "CreateMeasurement" -> Witnesses(CmdRp(c, cmd), cmd.n, dv)
+    [] cmd.op = "CreateShardGroup"  -> CmdRp(c, cmd).ms
+    [] OTHER -> {}
+PickSet(c, cmd, dv) == IF Picks(c, cmd, dv) = {} THEN {NoPick} ELSE Picks(c, cmd, dv)
+\* a fixed representative (TLC's CHOOSE is a function of the set): the lineage the specification follows
+DetPick(S) == IF S = {} THEN NoPick ELSE CHOOSE x \in S : TRUE
+
+\* the outcome of a command when the map iteration yields w first
+ApW(c, cmd, dv, w) ==
   CASE cmd.op = "CreateDataNode"            -> CreateDataNode(c, cmd.n, dv)
     [] cmd.op = "CreateSqlNode"             -> CreateSqlNode(c, cmd.n)
     [] cmd.op = "CreateDbPtView"            -> CreateDbPtView(c, cmd.db, cmd.a)
@@ -421,15 +477,24 @@ Ap(c, cmd, dv) ==
     [] cmd.op = "MarkRetentionPolicyDelete" -> MarkRetentionPolicyDelete(c, cmd.db, cmd.rp)
     [] cmd.op = "DropRetentionPolicy"       -> DropRetentionPolicy(c, cmd.db, cmd.rp, dv)
     [] cmd.op = "SetDefaultRetentionPolicy" -> SetDefaultRetentionPolicy(c, cmd.db, cmd.rp)
-    [] cmd.op = "CreateMeasurement"         -> CreateMeasurement(c, cmd.db, cmd.rp, cmd.n, cmd.a, dv)
+    [] cmd.op = "CreateMeasurement"         -> CreateMeasurement(c, cmd.db, cmd.rp, cmd.n, cmd.a, TyName(cmd.b), w, dv)
     [] cmd.op = "MarkMeasurementDelete"     -> MarkMeasurementDelete(c, cmd.db, cmd.rp, cmd.n)
     [] cmd.op = "DropMeasurement"           -> DropMeasurement(c, cmd.db, cmd.rp, cmd.n, cmd.a)
-    [] cmd.op = "CreateShardGroup"          -> CreateShardGroup(c, cmd.db, cmd.rp, cmd.a, cmd.b, dv)
+    [] cmd.op = "CreateShardGroup"          -> CreateShardGroup(c, cmd.db, cmd.rp, cmd.a, cmd.b, w, dv)
     [] cmd.op = "DeleteShardGroup"          -> DeleteShardGroup(c, cmd.db, cmd.rp, cmd.a)
     [] cmd.op = "PruneGroups"               -> PruneGroups(c, cmd.a, dv)
     [] cmd.op = "CreateUser"                -> CreateUser(c, cmd.n, cmd.a)
     [] cmd.op = "DropUser"                  -> DropUser(c, cmd.n)
     [] cmd.op = "SetPrivilege"              -> SetPrivilege(c, cmd.n, cmd.db, cmd.a)
+    \* a command of a registered type that is NOT modelled (subscriptions, continuous queries, user
+    \* password, query-id offsets, shard / index tiers, take-over and balancer switches, partition versions,
+    \* schemas, down-sample levels): whatever it returns, the modelled part of the catalogue is unchanged.
+    \* a = the kind; the harness draws the arguments from the live catalogue.
+    [] cmd.op = "Opaque"                    -> Ok(c, {})
+
+Ap(c, cmd, dv)    == ApW(c, cmd, dv, DetPick(Picks(c, cmd, dv)))
+\* every outcome the runtime's map order may produce
+ApAll(c, cmd, dv) == {ApW(c, cmd, dv, w) : w \in PickSet(c, cmd, dv)}
 
 RECURSIVE Replay(_, _, _)
 Replay(c, cmds, dv) == IF cmds = <<>> THEN c ELSE Replay(Ap(c, Head(cmds), dv).c, Tail(cmds), dv)
@@ -438,6 +503,10 @@ Replay(c, cmds, dv) == IF cmds = <<>> THEN c ELSE Replay(Ap(c, Head(cmds), dv).c
 \* the commands offered in a state (valid and invalid arguments: duplicates, unknown names, deletes of
 \* absent objects); identifiers range a little beyond the ones handed out
 RPx == RPs \cup {""}
+\* number of unmodelled command kinds the harness knows to build (harness/cmd/vh/metacat.go: mcOpaqueKinds)
+OpaqueKinds == 15
+\* shard-key variants offered to CreateMeasurement (exhaustive configurations override it with {0})
+SkChoices == {0, 1}
 IdR(n) == 1..(IF n + 1 > 6 THEN 6 ELSE n + 1)
 
 CmdsOf(op, c) ==
@@ -463,7 +532,7 @@ CmdsOf(op, c) ==
     [] op = "MarkRetentionPolicyDelete" -> {Cmd(op, d, r, "", 0, 0, <<>>) : d \in DBs, r \in RPs}
     [] op = "DropRetentionPolicy"       -> {Cmd(op, d, r, "", 0, 0, <<>>) : d \in DBs, r \in RPs}
     [] op = "SetDefaultRetentionPolicy" -> {Cmd(op, d, r, "", 0, 0, <<>>) : d \in DBs, r \in RPs}
-    [] op = "CreateMeasurement"     -> {Cmd(op, d, r, m, k, 0, <<>>) : d \in DBs, r \in RPx, m \in Msts, k \in {0, 1}}
+    [] op = "CreateMeasurement"     -> {Cmd(op, d, r, m, k, ty, <<>>) : d \in DBs, r \in RPx, m \in Msts, k \in SkChoices, ty \in ShardTypes}
     [] op = "MarkMeasurementDelete" -> {Cmd(op, d, r, m, 0, 0, <<>>) : d \in DBs, r \in RPx, m \in Msts}
     [] op = "DropMeasurement"       -> {Cmd(op, d, r, m, v, 0, <<>>) : d \in DBs, r \in RPx, m \in Msts, v \in 0..MaxVer}
     [] op = "CreateShardGroup"      -> {Cmd(op, d, r, "", t, e, <<>>) : d \in DBs, r \in RPx, t \in Times, e \in Engines}
@@ -472,6 +541,7 @@ CmdsOf(op, c) ==
     [] op = "CreateUser"            -> {Cmd(op, "", "", u, a, 0, <<>>) : u \in Users, a \in {0, 1}}
     [] op = "DropUser"              -> {Cmd(op, "", "", u, 0, 0, <<>>) : u \in Users}
     [] op = "SetPrivilege"          -> {Cmd(op, d, "", u, p, 0, <<>>) : d \in DBs, u \in Users, p \in {1, 3}}
+    [] op = "Opaque"                -> {Cmd(op, "", "", "", k, 0, <<>>) : k \in 0..(OpaqueKinds - 1)}
 
 AllCmds(c) == UNION {CmdsOf(op, c) : op \in Ops \ {"Snapshot"}}
 \* the commands offered in one step; simulation configs override this with a random sample
@@ -480,8 +550,11 @@ CmdChoices == AllCmds(cat)
 \* handlers_process.createDatabase: a CreateDatabase command is proposed only after the database's
 \* partition view (and, with ReplicaNum > 1, its replica groups) was created by a CreateDbPtView command
 \* carrying the same ReplicaNum
-Protocol(c, cmd) == cmd.op = "CreateDatabase" =>
-                       (c.ptv[cmd.db] # <<>> /\ ((cmd.l[1] > 1) <=> (c.rgs[cmd.db] # <<>>)))
+Protocol(c, cmd) ==
+  /\ cmd.op = "CreateDatabase" => (c.ptv[cmd.db] # <<>> /\ ((cmd.l[1] > 1) <=> (c.rgs[cmd.db] # <<>>)))
+  \* bound of the model: replication only with one partition per node
+  /\ (c.ppn > 1 /\ cmd.op = "CreateDbPtView") => cmd.a = 1
+  /\ (c.ppn > 1 /\ cmd.op = "CreateDatabase") => cmd.l[1] = 1
 
 -----------------------------------------------------------------------------
 \* what a snapshot carries. Design: the clone taken by FSM.Snapshot is the state at that moment and
@@ -503,27 +576,34 @@ Image(s, live, dv) ==
             THEN [s5 EXCEPT !.dbs = [d \in DBs |-> [s5.dbs[d] EXCEPT !.rps = [r \in RPs |->
                      [s5.dbs[d].rps[r] EXCEPT !.sgs = Wr(@), !.igs = Wr(@)]]]]]
             ELSE s5
+      \* RetentionPolicyInfo.Marshal writes every MstVersions entry, also the one whose measurement was
+      \* dropped (CreateMeasurement derives the next version from it). Mutation seed: only the entries whose
+      \* measurement is still in rp.Measurements.
+      Orph(R) == [R EXCEPT !.mv = [m \in Msts |-> IF \E x \in R.ms : x.n = m /\ x.v = R.mv[m] THEN R.mv[m] ELSE -1]]
+      s7 == IF "snapshot_drops_orphan_versions" \in dv
+            THEN [s6 EXCEPT !.dbs = [d \in DBs |-> [s6.dbs[d] EXCEPT !.rps = [r \in RPs |-> Orph(s6.dbs[d].rps[r])]]]]
+            ELSE s6
   \* Data.Unmarshal allocates the ReplicaGroups map only if the image carries an entry
-  IN [s6 EXCEPT !.rgmap = \E d \in DBs : s6.rgs[d] # <<>>]
+  IN [s7 EXCEPT !.rgmap = \E d \in DBs : s7.rgs[d] # <<>>]
 
 \* rgmap is not part of the catalogue's value
 Norm(c) == [c EXCEPT !.rgmap = FALSE]
 
-NoSnap == [ph |-> "none", c |-> InitCat, ci |-> InitCat, img |-> InitCat, imgi |-> InitCat, tail |-> <<>>]
+\* ph: none -> taken (Snapshot) -> persisted (Persist) -> none (Restore); rest: the replica has been
+\* restored at least once (catB is meaningful); k: snapshots taken so far
+NoSnap == [ph |-> "none", rest |-> FALSE, k |-> 0, c |-> InitCat, ci |-> InitCat, img |-> InitCat, imgi |-> InitCat, tail |-> <<>>]
 
 -----------------------------------------------------------------------------
 IDev == Dev \cup ImplDev
 
-Init == /\ \E sc \in SchemaCleanChoices : cat = [InitCat EXCEPT !.sclean = sc]
-        /\ catI = cat /\ used = {} /\ sn = NoSnap
-        /\ flags = [reused |-> FALSE, noop |-> TRUE, panic |-> FALSE, fa |-> {}]
-        /\ catB = InitCat /\ catBI = InitCat /\ hist = <<>>
+RpsOf(c) == {x \in DBs \X RPs : c.dbs[x[1]].rps[x[2]].ex}
+RpAt(c, x) == c.dbs[x[1]].rps[x[2]]
+\* the measurement versions present in the catalogue
+KeysV(c) == UNION {{<<x[1], x[2], e.n, e.v>> : e \in RpAt(c, x).ms} : x \in RpsOf(c)}
 
-\* deviations of ImplDev that change the outcome of this command (for the harness's attribution)
-Fired(cmd, r, ri) == IF r = ri THEN {} ELSE
-   {x \in ImplDev : Ap(catI, cmd, IDev \ {x}) # ri}
-
-FiredNow(cmd, r, ri) == IF Track THEN Fired(cmd, r, ri) ELSE {}
+\* deviations of ImplDev that change the outcome of this command on the as-implemented lineage ci (for
+\* the harness's attribution)
+FiredAt(ci, cmd, r, ri) == IF r = ri THEN {} ELSE {x \in ImplDev : Ap(ci, cmd, IDev \ {x}) # ri}
 \* The exported behaviours tell the harness the design's and the as-implemented outcome; a tree in which
 \* only one property's defects are repaired follows the design for some deviations and the
 \* as-implemented prediction for others. So that such a tree still follows ONE of the two lineages in
@@ -534,12 +614,44 @@ Compatible(fs) == ~("far_past_start_wraps" \in fs /\ fs # {"far_past_start_wraps
 HE(a, args, exp, st, alt, b, bi, x) ==
   [a |-> a, args |-> args, exp |-> exp, st |-> st, alt |-> alt, b |-> b, bi |-> bi, x |-> x]
 
-Entry(cmd, r, ri, b, bi) ==
+\* the as-implemented outcomes of a command, if they are not just the design's: first the one the
+\* specification's as-implemented lineage follows, then - when the as-implemented catalogue lets the
+\* runtime's map order decide (a policy with both sharding types) - the others
+AltsAt(ci, cmd, r, ri) ==
+  LET all  == ApAll(ci, cmd, IDev)
+      rest == SetToSeq(all \ {ri})
+  IN IF all = {r} THEN <<>>
+     ELSE <<[exp |-> ri.r, st |-> ri.c, fired |-> FiredAt(ci, cmd, r, ri)]>> \o
+          [i \in 1..Len(rest) |-> [exp |-> rest[i].r, st |-> rest[i].c, fired |-> {}]]
+
+EntryAt(c, ci, first, cmd, r, ri, b, bi) ==
   IF Track
-  THEN HE(cmd.op, cmd, r.r, IF hist # <<>> /\ r.c = cat THEN 0 ELSE r.c,     \* 0 = unchanged
-          IF ri = r THEN <<>> ELSE <<[exp |-> ri.r, st |-> ri.c, fired |-> Fired(cmd, r, ri)]>>,
-          b, bi, <<>>)
+  THEN HE(cmd.op, cmd, r.r, IF ~first /\ r.c = c THEN 0 ELSE r.c,     \* 0 = unchanged
+          AltsAt(ci, cmd, r, ri), b, bi, <<>>)
   ELSE [a |-> cmd.op]
+
+\* set-up commands applied before the behaviour proper (the systematic export configurations give one):
+\* they are part of the exported history
+Prefix == <<>>
+RECURSIVE RunPrefix(_, _)
+RunPrefix(st, cmds) ==
+  IF cmds = <<>> THEN st
+  ELSE LET cmd == Head(cmds)
+           r   == Ap(st.c, cmd, Dev)
+           ri  == IF Track THEN Ap(st.ci, cmd, IDev) ELSE r
+       IN RunPrefix([c |-> r.c, ci |-> ri.c, used |-> st.used \cup r.new, usedv |-> st.usedv \cup KeysV(r.c),
+                     hist |-> Append(st.hist, EntryAt(st.c, st.ci, st.hist = <<>>, cmd, r, ri, <<>>, <<>>))],
+                    Tail(cmds))
+
+Init == \E sc \in SchemaCleanChoices, pp \in PpnChoices :
+          LET c0 == [InitCat EXCEPT !.sclean = sc, !.ppn = pp]
+              p  == RunPrefix([c |-> c0, ci |-> c0, used |-> {}, usedv |-> {}, hist |-> <<>>], Prefix)
+          IN /\ cat = p.c /\ catI = p.ci /\ used = p.used /\ usedv = p.usedv /\ hist = p.hist
+             /\ sn = NoSnap
+             /\ flags = [reused |-> FALSE, vreused |-> FALSE, noop |-> TRUE, panic |-> FALSE, fa |-> {}]
+             /\ catB = InitCat /\ catBI = InitCat
+
+FiredNow(cmd, r, ri) == IF Track THEN FiredAt(catI, cmd, r, ri) ELSE {}
 
 Do(cmd) ==
   /\ Protocol(cat, cmd)
@@ -551,41 +663,47 @@ Do(cmd) ==
         /\ cat' = r.c
         /\ catI' = IF Track THEN ri.c ELSE catI
         /\ Compatible(flags.fa \cup FiredNow(cmd, r, ri))
-        /\ flags' = [reused |-> flags.reused \/ (r.new \cap used # {}),
-                     noop   |-> flags.noop /\ (r.r = "ok" \/ r.c = cat),
-                     panic  |-> flags.panic \/ r.r = "panic",
-                     fa     |-> flags.fa \cup FiredNow(cmd, r, ri)]
+        /\ \E newv \in {KeysV(r.c) \ KeysV(cat)} :
+           /\ flags' = [reused  |-> flags.reused \/ (r.new \cap used # {}),
+                        vreused |-> flags.vreused \/ (newv \cap usedv # {}),
+                        noop    |-> flags.noop /\ (r.r = "ok" \/ r.c = cat),
+                        panic   |-> flags.panic \/ r.r = "panic",
+                        fa      |-> flags.fa \cup FiredNow(cmd, r, ri)]
+           \* the version counters of a policy go with the policy
+           /\ usedv' = {u \in usedv : <<u[1], u[2]>> \in RpsOf(r.c)} \cup newv
         /\ used' = used \cup r.new
         /\ sn' = IF sn.ph \in {"taken", "persisted"} THEN [sn EXCEPT !.tail = Append(@, cmd)] ELSE sn
-        /\ \E b \in {IF sn.ph = "restored" THEN Ap(catB, cmd, Dev).c ELSE catB} :
-           \E bi \in {IF sn.ph = "restored" /\ Track THEN Ap(catBI, cmd, IDev).c ELSE catBI} :
+        /\ \E b \in {IF sn.rest THEN Ap(catB, cmd, Dev).c ELSE catB} :
+           \E bi \in {IF sn.rest /\ Track THEN Ap(catBI, cmd, IDev).c ELSE catBI} :
              /\ catB' = b
              /\ catBI' = bi
-             /\ hist' = Append(hist, Entry(cmd, r, ri,
-                                 IF sn.ph = "restored" /\ Norm(b) # Norm(r.c) THEN <<b>> ELSE <<>>,
-                                 IF sn.ph = "restored" /\ Norm(bi) # Norm(ri.c) THEN <<bi>> ELSE <<>>))
+             /\ hist' = Append(hist, EntryAt(cat, catI, hist = <<>>, cmd, r, ri,
+                                 IF sn.rest /\ Norm(b) # Norm(r.c) THEN <<b>> ELSE <<>>,
+                                 IF sn.rest /\ Norm(bi) # Norm(ri.c) THEN <<bi>> ELSE <<>>))
 
 Marker(a, n, b, bi, x) ==
   IF Track THEN HE(a, Cmd(a, "", "", "", n, 0, <<>>), "ok", IF hist # <<>> THEN 0 ELSE cat,
                    IF catI = cat THEN <<>> ELSE <<[exp |-> "ok", st |-> catI, fired |-> {}]>>, b, bi, x)
   ELSE [a |-> a]
 
-\* storeFSM.Snapshot: Data.Clone under the store lock
+\* storeFSM.Snapshot: Data.Clone under the store lock. The replica of the behaviour snapshots ITSELF:
+\* before its first restore it is a node that applied everything, afterwards the restored node.
 Snapshot ==
-  /\ sn.ph = "none"
-  /\ sn' = [sn EXCEPT !.ph = "taken", !.c = cat, !.ci = catI]
+  /\ sn.ph = "none" /\ sn.k < MaxSnaps
+  /\ sn' = [sn EXCEPT !.ph = "taken", !.k = @ + 1, !.tail = <<>>,
+                      !.c = IF sn.rest THEN catB ELSE cat, !.ci = IF sn.rest THEN catBI ELSE catI]
   /\ hist' = Append(hist, Marker("Snapshot", 0, <<>>, <<>>, <<>>))
-  /\ UNCHANGED <<cat, catI, used, flags, catB, catBI>>
+  /\ UNCHANGED <<cat, catI, used, usedv, flags, catB, catBI>>
 
 \* storeFSMSnapshot.Persist: MarshalBinary of the clone, later, on another goroutine
 Persist ==
   /\ sn.ph = "taken"
-  /\ sn' = [sn EXCEPT !.ph = "persisted", !.img = Image(sn.c, cat, Dev),
-                      !.imgi = IF Track THEN Image(sn.ci, catI, IDev) ELSE @]
+  /\ sn' = [sn EXCEPT !.ph = "persisted", !.img = Image(sn.c, IF sn.rest THEN catB ELSE cat, Dev),
+                      !.imgi = IF Track THEN Image(sn.ci, IF sn.rest THEN catBI ELSE catI, IDev) ELSE @]
   /\ hist' = Append(hist, Marker("Persist", 0, <<>>, <<>>, <<>>))
-  /\ UNCHANGED <<cat, catI, used, flags, catB, catBI>>
+  /\ UNCHANGED <<cat, catI, used, usedv, flags, catB, catBI>>
 
-\* storeFSM.Restore on another node, which then applies the log entries after the snapshot index
+\* storeFSM.Restore, then the log entries after the snapshot index are applied
 Restore ==
   /\ sn.ph = "persisted"
   /\ \E b \in {Replay(sn.img, sn.tail, Dev)} :
@@ -596,11 +714,11 @@ Restore ==
                                       IF Norm(b) # Norm(cat) THEN <<b>> ELSE <<>>, IF Norm(bi) # Norm(catI) THEN <<bi>> ELSE <<>>,
                                       <<[snap |-> sn.c, img |-> sn.img,
                                          imgi |-> IF sn.imgi = sn.img THEN <<>> ELSE <<sn.imgi>>]>>))
-  /\ sn' = [sn EXCEPT !.ph = "restored"]
-  /\ UNCHANGED <<cat, catI, used, flags>>
+  /\ sn' = [sn EXCEPT !.ph = "none", !.rest = TRUE]
+  /\ UNCHANGED <<cat, catI, used, usedv, flags>>
 
 SnapOn == "Snapshot" \in Ops
-\* simulation configs override this to spread the snapshot over the behaviour
+\* simulation configs override this to spread the snapshots over the behaviour
 SnapGate == TRUE
 
 Next ==
@@ -614,8 +732,6 @@ Spec == Init /\ [][Next]_vars
 
 -----------------------------------------------------------------------------
 \* ---- C16 ------------------------------------------------------------------
-RpsOf(c) == {x \in DBs \X RPs : c.dbs[x[1]].rps[x[2]].ex}
-RpAt(c, x) == c.dbs[x[1]].rps[x[2]]
 
 \* within a policy and engine kind the live shard groups cover pairwise disjoint spans, each inside one
 \* window of the duration it was created with; the slice is sorted by (end, start)
@@ -649,6 +765,9 @@ IdsUnique == IdsUniqueIn(cat)
 
 \* an identifier is never handed out twice, even after the first holder was deleted
 IdsNeverReused == ~flags.reused
+\* ... and within the life of a policy a measurement version (the name the stores use for its
+\* directories) is never handed out twice, even after the measurement was dropped
+VersionsNeverReused == ~flags.vreused
 
 \* every shard refers to an index of its policy and to partitions that exist; partitions are owned by
 \* existing nodes
@@ -669,11 +788,27 @@ NoPanic == ~flags.panic
 
 \* ---- C15 ------------------------------------------------------------------
 \* what Persist writes is the catalogue at the moment of Snapshot
-SnapshotPointInTime == sn.ph \in {"persisted", "restored"} => Norm(sn.img) = Norm(sn.c)
-\* restoring the snapshot and applying the remaining commands reaches the state of the node that applied
+HasImage == sn.ph = "persisted" \/ (sn.ph = "none" /\ sn.rest)
+SnapshotPointInTime == HasImage => Norm(sn.img) = Norm(sn.c)
+\* ... in particular the per-name version counters, also those whose measurement is gone
+SnapshotKeepsVersions == HasImage => \A d \in DBs, r \in RPs : sn.img.dbs[d].rps[r].mv = sn.c.dbs[d].rps[r].mv
+\* restoring a snapshot and applying the remaining commands reaches the state of the node that applied
 \* everything
-SnapshotComplete == sn.ph = "restored" => Norm(catB) = Norm(cat)
+SnapshotComplete == sn.rest => Norm(catB) = Norm(cat)
 
-TypeOK == /\ cat.ptNum = Len(cat.nodes)
+\* all entries of a policy's measurement map - marked or not, every version - have one sharding type
+ShardTypeUniform == \A x \in RpsOf(cat) : \A e, f \in RpAt(cat, x).ms : e.ty = f.ty
+\* whichever entry of the map validMeasurementShardType takes as witness, CreateMeasurement answers and
+\* does the same
+WitnessIndependent ==
+  \A x \in RpsOf(cat), m \in Msts, k \in SkChoices, ty \in ShardTypes :
+     Cardinality(ApAll(cat, Cmd("CreateMeasurement", x[1], x[2], m, k, ty, <<>>), Dev)) = 1
+\* whichever entry of the map CreateShardGroup takes as template, it yields the same group (this is what
+\* makes Go's map iteration order irrelevant, i.e. what replicas need to stay equal)
+TemplateIndependent ==
+  \A x \in RpsOf(cat), t \in Times, e \in Engines :
+     Cardinality(ApAll(cat, Cmd("CreateShardGroup", x[1], x[2], "", t, e, <<>>), Dev)) = 1
+
+TypeOK == /\ cat.ptNum = cat.ppn * Len(cat.nodes)
           /\ cat.maxSG >= 0 /\ cat.maxSh >= 0
 =============================================================================
